@@ -124,6 +124,8 @@ pub struct SimSource {
     pub cfg: SrcCfg,
     /// bytes handed out so far (by read calls; seeks do not count)
     pub handed: usize,
+    /// shared view of `handed`
+    pub handed_shared: Arc<std::sync::atomic::AtomicUsize>,
     pub calls: usize,
     pub fault_fired: bool,
     consecutive_intr: u32,
@@ -142,6 +144,7 @@ impl SimSource {
             env: env.clone(),
             cfg,
             handed: 0,
+            handed_shared: Arc::new(std::sync::atomic::AtomicUsize::new(0)),
             calls: 0,
             fault_fired: false,
             consecutive_intr: 0,
@@ -255,6 +258,7 @@ impl Read for SimSource {
         buf[..n].copy_from_slice(&self.data[self.pos..self.pos + n]);
         self.pos += n;
         self.handed += n;
+        self.handed_shared.store(self.handed, Ordering::SeqCst);
         let _ = self.tag;
         Ok(n)
     }
@@ -320,6 +324,7 @@ impl AsyncRead for SimSource {
         buf.put_slice(&this.data[this.pos..this.pos + n]);
         this.pos += n;
         this.handed += n;
+        this.handed_shared.store(this.handed, Ordering::SeqCst);
         Poll::Ready(Ok(()))
     }
 }
